@@ -10,9 +10,11 @@ HOSTILE_FILES = [
     "apos'trophe", "]]>cdata.txt", "ünï cödé.txt", "日本語.mov", "é", ".hidden", "#hash#", "100%.txt", "star*.txt",
     "quest?ion", "[bracket].txt", "semi;colon", "écombining", "tab nbsp", "-dash", "--double", "~tilde",
     "back\\slash", "&amp;", "&#10;", "<!--c-->", "a" * 200, "ß" * 100, "Z", "0", "ascmhl.txt", "ascmhl_chain.xml",
-    ".DS_Store.bak", "x.mhl",
+    ".DS_Store.bak", "x.mhl", "cafe\u0301.txt", "caf\u00e9.txt", "\u212b.dat", "\u00c5.dat", "\u1112\u1161\u11ab.txt", "\ud55c.txt",
+    "[1].bin", "a[b]c.mov", "x{1,2}.txt",
 ]
-HOSTILE_DIRS = ["dir with space", "ümlaut", "日本", "d&d", "d<e>", "d'q\"", ".hiddendir", "x" * 120, "A B", "#d", "d]]>"]
+HOSTILE_DIRS = ["dir with space", "ümlaut", "日本", "d&d", "d<e>", "d'q\"", ".hiddendir", "x" * 120, "A B", "#d", "d]]>",
+                "u\u0308ber", "\u00fcber", "Card [A001]", "q?*"]
 
 TZS = ["UTC0", "CET-1CEST,M3.5.0,M10.5.0/3", "EST5EDT,M3.2.0,M11.1.0", "AEST-10AEDT,M10.1.0,M4.1.0/3",
        "NST3:30NDT,M3.2.0,M11.1.0", "IST-5:30", "<-03>3", "LHST-10:30LHDT-11,M10.1.0,M4.1.0",
@@ -44,7 +46,8 @@ def gen_env(rng, hostile_mount=False):
         "wbuf": rng.choice(WBUFS),
         "t0": 1_600_000_000_000_000 + rng.randrange(0, 150_000_000) * 1_000_000 + rng.randrange(1_000_000),
         "mount": ["m"],
-        "rootname": rng.choice(["root", "Reel A", "R", "card_01", "ünï", "notes", "sub", "d1", "cache", "tmp_root", "x.bak"]),
+        "rootname": rng.choice(["root", "Reel A", "R", "card_01", "ünï", "notes", "sub", "d1", "cache", "tmp_root", "x.bak",
+                                "Card [A001]", "e\u0301 nfd", "x[1]"]),
     }
     return env
 
